@@ -171,6 +171,7 @@ impl C07 {
             return;
         };
         rep.evaluations = 1;
+        size_labels(&c.u, &mut rep.labels);
         let cfg = RunCfg {
             runtime: sc.rt.clone(),
             labels: false,
@@ -229,7 +230,7 @@ impl C07 {
     }
 }
 
-struct_property!(C07, "C07", "tape -> universe that is conflict-free by construction (every package has a target candidate, requirements issued by root/targets rank the required package's target first, constrains/locks admit targets, exclusions/Unknown and arbitrary noisy dependencies only on non-targets; chains, diamonds, cycles, unions; any favored assignment, any hint pattern, sync or generated async schedule). The reference computes the first-choice closure G and re-verifies the precondition independently (else the case is skipped and counted); solve must return exactly G. Stage wide: 100..160 packages, more than 256 solvables and sparse ids beyond 512. Non-trivial: |G|>=4 and (a favored target that is not top-ranked, or a union). Distinct = distinct hash of case.", |s: &C07| if s.stage == "wide" { 8000usize } else { 1600 });
+struct_property!(C07, "C07", "tape -> universe that is conflict-free by construction (every package has a target candidate, requirements issued by root/targets rank the required package's target first, constrains/locks admit targets, exclusions/Unknown and arbitrary noisy dependencies only on non-targets; chains, diamonds, cycles, unions; any favored assignment, any hint pattern, sync or generated async schedule). The reference computes the first-choice closure G and re-verifies the precondition independently (else the case is skipped and counted); solve must return exactly G. Stage wide: 100..160 packages, more than 256 solvables and sparse ids beyond 512. Non-trivial: |G|>=4 and (a favored target that is not top-ranked, or a union). Distinct = distinct hash of case.", |s: &C07| match s.stage { "wide" => 8000usize, "huge" => 60_000, _ => 1600 });
 
 // =============================================================================== C08
 
@@ -569,7 +570,31 @@ impl C09 {
                 }
             }
         }
+        // conflict-free stage: in a third of the cases the solver has been used before, for a
+        // different generated problem that may be cancelled part-way
+        let warm;
+        let mut warmed = false;
+        if self.conflict_free && !c.u.vsets.is_empty() {
+            let ex = &sc.extra;
+            if ex.first().map_or(false, |v| v % 3 == 1) {
+                let k = 1 + ex.get(1).copied().unwrap_or(0) as usize % 3;
+                warm = Problem {
+                    reqs: (0..k)
+                        .map(|i| Req::Single(ex.get(2 + i).copied().unwrap_or(0) as usize * c.u.vsets.len() >> 16))
+                        .collect(),
+                    constraints: vec![],
+                    soft: vec![],
+                };
+                let cancel = match ex.get(6) {
+                    Some(&v) if v & 1 == 1 => Cancel::Transient((v as u64 >> 1) % 24),
+                    _ => Cancel::Never,
+                };
+                plan.push((&warm, cancel));
+                warmed = true;
+            }
+        }
         plan.extend(problems.iter().map(|p| (p, Cancel::Never)));
+        let mut last_deps: BTreeSet<u32> = BTreeSet::new();
         for (i, &(p, cancel)) in plan.iter().enumerate() {
             let res = session.solve(p, cancel, false, false);
             rep.evaluations += 1;
@@ -583,6 +608,14 @@ impl C09 {
                 rep.failure = Some(f);
                 return;
             }
+            last_deps = res
+                .log
+                .iter()
+                .filter_map(|c| match c {
+                    Call::GetDependencies(s) => Some(*s),
+                    _ => None,
+                })
+                .collect();
             if let Err(f) = model.step(c, p, &res.log, gated, true) {
                 rep.failure = Some(Failure {
                     detail: format!("solve #{i}: {}", f.detail),
@@ -590,6 +623,9 @@ impl C09 {
                 });
                 return;
             }
+        }
+        if warmed {
+            rep.labels.push("conflict-free-on-used-solver");
         }
         if problems.len() > 1 {
             rep.labels.push("second-solve");
@@ -627,6 +663,20 @@ impl C09 {
                 }
             }
             let got_names: BTreeSet<u32> = model.cands_started.keys().copied().collect();
+            if warmed {
+                // whatever the solver was used for before, the conflict-free solve itself asks
+                // for the dependencies of solution members only, and all of them are known
+                // at the end
+                if !last_deps.is_subset(&want_deps) || !want_deps.is_subset(&got_deps) {
+                    rep.failure = Some(Failure {
+                        signature: "C09:not-exactly-solution-dependencies".into(),
+                        detail: format!(
+                            "on a solver used before: the conflict-free solve requested dependencies of solvable ids {last_deps:?} (all requests of this solver: {got_deps:?}), the solution is {want_deps:?}"
+                        ),
+                    });
+                }
+                return;
+            }
             if want_deps != got_deps {
                 rep.failure = Some(Failure {
                     signature: "C09:not-exactly-solution-dependencies".into(),
@@ -644,7 +694,7 @@ impl C09 {
     }
 }
 
-struct_property!(C09, "C09", "tape -> no-hint universe; (general stage) two successive problems solved on ONE solver, sync or async, in two thirds of the cases preceded by a solve that the provider cancels at a generated poll; the provider call log is checked as a history: every get_dependencies(s) is for a soft requirement or a matching candidate of a requirement already obtained (root or previously returned dependencies), every get_candidates(n) is for a name those dependencies mention, and no key is requested again after it completed (across both solves); (conflict-free stage) on universes that are conflict-free by construction dependencies are requested for exactly the solution and candidates for exactly the mentioned names. Non-trivial: >=3 candidates with dependencies were never fetched, or a second solve ran on the same solver. Distinct = distinct hash of case.");
+struct_property!(C09, "C09", "tape -> no-hint universe; (general stage) two successive problems solved on ONE solver, sync or async, in two thirds of the cases preceded by a solve that the provider cancels at a generated poll; the provider call log is checked as a history: every get_dependencies(s) is for a soft requirement or a matching candidate of a requirement already obtained (root or previously returned dependencies), every get_candidates(n) is for a name those dependencies mention, and no key is requested again after it completed (across both solves); (conflict-free stage) on universes that are conflict-free by construction dependencies are requested for exactly the solution and candidates for exactly the mentioned names; in a third of these cases the solver was used before for a different generated problem (possibly cancelled part-way), and then the conflict-free solve itself may request dependencies of solution members only. Non-trivial: >=3 candidates with dependencies were never fetched, or a second solve ran on the same solver. Distinct = distinct hash of case.");
 
 // =============================================================================== C14
 
